@@ -158,8 +158,7 @@ impl<F: SemFlavor> Sys<F> {
             if let Some(s) = s {
                 if s.fut.is_alive() {
                     let node = F::node(s.fut.get());
-                    let linked = node.tag == 1 || (node.tag == 2 && self.fair);
-                    v.push(LiveNode { group: G, slot: i, node, linked_expected: linked });
+                    v.push(LiveNode::new(G, i, node, &s.meta));
                 }
             }
         }
